@@ -1,28 +1,35 @@
 // C01 — traffic is routed by the first matching rule, exactly as the rules are written.
 // Bounded-exhaustive enumeration (engine Q): every program of the vroute generator (tier 1: all single rules
-// over the per-function boundary alphabets; tier 2: interaction programs over three atoms) is pushed through
-// the production pipeline
+// over the per-function boundary alphabets; tier 2: interaction programs over three atoms; tier 3: lists of
+// single-condition rules that trigger rule merging) is pushed through the production pipeline
 //
-//	rule text -> config_parser.Parse -> config.New (patchMustOutbound) -> routing.NewNormalizedProgram(AliasOptimizer)
+//	rule text -> config_parser.Parse -> config.New (patchMustOutbound) -> routing.NewNormalizedProgram(chain)
 //	-> NewRoutingMatcherBuilderFromProgram -> BuildUserspace -> ControlPlane.Route
 //
+// in two legs: "alias" (chain = AliasOptimizer only: rules lowered in written order) and "prod" (chain = the one
+// wired in control/control_plane.go of the tree under test: the program the control plane really decides on),
 // and decided for every packet of the boundary product of the program's own constants; each decision
 // (outbound, mark, must) is compared with the vroute reference interpreter, which reads the raw parsed AST
-// and is written from the property statement only.
+// of the rules AS WRITTEN and is built from the property statement only.
 package main
 
 import (
 	"encoding/json"
 	"fmt"
+	"go/ast"
+	"go/parser"
+	"go/token"
 	"hash/fnv"
 	"net/netip"
 	"os"
-	"runtime/pprof"
+	"path/filepath"
 	"sort"
+	"strings"
 	"sync"
 	"sync/atomic"
 	"time"
 
+	"github.com/daeuniverse/dae/common/assets"
 	"github.com/daeuniverse/dae/common/consts"
 	"github.com/daeuniverse/dae/component/routing"
 	"github.com/daeuniverse/dae/control"
@@ -61,6 +68,8 @@ func l4Of(s string) consts.L4ProtoType {
 func pname16(s string) (o [16]uint8) { copy(o[:], s); return }
 
 type caseDetail struct {
+	Leg          string          `json:"leg"`
+	Lowered      string          `json:"rules_actually_lowered"`
 	Program      *vroute.Program `json:"program"`
 	Config       string          `json:"config"`
 	Packet       pktJSON         `json:"packet"`
@@ -98,9 +107,93 @@ func fromJSON(j pktJSON) (vroute.Packet, error) {
 	return p, err
 }
 
-// compile: parse once; reference from the raw AST first (config.New patches the AST in place), then the
-// production pipeline on the same sections.
-func compile(text string) (*vroute.Reference, *control.VerifRouting, error) {
+// leg = which optimizer chain lowers the rules. "alias": only AliasOptimizer (the minimum the builder needs for
+// dip/dport/domain-key spellings; rules are compiled in written order). "prod": the chain the control plane runs,
+// read from the source of the tree under test (control/control_plane.go, the arguments of
+// routing.NewNormalizedProgram), in that order.
+type leg struct {
+	name  string
+	chain func() []routing.RulesOptimizer
+}
+
+var (
+	legAlias = &leg{name: "alias", chain: func() []routing.RulesOptimizer { return []routing.RulesOptimizer{&routing.AliasOptimizer{}} }}
+	legProd  *leg
+	legs     = map[string]*leg{}
+
+	prodChainNames []string
+)
+
+// wiredChain reads the optimizer type names from the single routing.NewNormalizedProgram call in control_plane.go.
+func wiredChain(repo string) ([]string, error) {
+	fset := token.NewFileSet()
+	f, err := parser.ParseFile(fset, filepath.Join(repo, "control", "control_plane.go"), nil, 0)
+	if err != nil {
+		return nil, err
+	}
+	var names []string
+	found := 0
+	ast.Inspect(f, func(n ast.Node) bool {
+		call, ok := n.(*ast.CallExpr)
+		if !ok {
+			return true
+		}
+		sel, ok := call.Fun.(*ast.SelectorExpr)
+		if !ok || sel.Sel.Name != "NewNormalizedProgram" {
+			return true
+		}
+		if x, ok := sel.X.(*ast.Ident); !ok || x.Name != "routing" {
+			return true
+		}
+		found++
+		for _, a := range call.Args[2:] {
+			name := "?"
+			if u, ok := a.(*ast.UnaryExpr); ok {
+				if cl, ok := u.X.(*ast.CompositeLit); ok {
+					if s, ok := cl.Type.(*ast.SelectorExpr); ok {
+						name = s.Sel.Name
+					}
+				}
+			}
+			names = append(names, name)
+		}
+		return true
+	})
+	if found != 1 || len(names) == 0 {
+		return nil, fmt.Errorf("expected exactly one routing.NewNormalizedProgram(rules, fallback, optimizers...) call in control_plane.go, found %d with %d optimizers", found, len(names))
+	}
+	return names, nil
+}
+
+func prodLeg(names []string, assetDir string) (*leg, error) {
+	for _, n := range names {
+		switch n {
+		case "AliasOptimizer", "DatReaderOptimizer", "MergeAndSortRulesOptimizer", "DeduplicateParamsOptimizer":
+		default:
+			return nil, fmt.Errorf("unknown optimizer %q in the chain of control_plane.go", n)
+		}
+	}
+	return &leg{name: "prod", chain: func() []routing.RulesOptimizer {
+		var out []routing.RulesOptimizer
+		for _, n := range names {
+			switch n {
+			case "AliasOptimizer":
+				out = append(out, &routing.AliasOptimizer{})
+			case "DatReaderOptimizer": // the generated programs carry no geoip:/geosite:/ext: values: no data file is ever opened
+				out = append(out, &routing.DatReaderOptimizer{Logger: control.VerifQuietLogger(), LocationFinder: assets.NewLocationFinder([]string{assetDir})})
+			case "MergeAndSortRulesOptimizer":
+				out = append(out, &routing.MergeAndSortRulesOptimizer{})
+			case "DeduplicateParamsOptimizer":
+				out = append(out, &routing.DeduplicateParamsOptimizer{})
+			}
+		}
+		return out
+	}}, nil
+}
+
+// compile: parse once; reference from the raw AST first (config.New patches the AST in place, the optimizers
+// rewrite it), then the production pipeline on the same sections through the leg's optimizer chain.
+func compile(text string, lg *leg) (*vroute.Reference, *control.VerifRouting, error) {
 	sections, err := config_parser.Parse(text)
 	if err != nil {
 		return nil, nil, fmt.Errorf("parse: %w", err)
@@ -109,7 +202,7 @@ func compile(text string) (*vroute.Reference, *control.VerifRouting, error) {
 	if err != nil {
 		return nil, nil, fmt.Errorf("reference (harness): %w", err)
 	}
-	v, err := control.VerifCompileRoutingSections(sections, vroute.Groups, []routing.RulesOptimizer{&routing.AliasOptimizer{}})
+	v, err := control.VerifCompileRoutingSections(sections, vroute.Groups, lg.chain())
 	if err != nil {
 		return nil, nil, err
 	}
@@ -132,17 +225,33 @@ func (c *checker) route(v *control.VerifRouting, p *vroute.Packet) (vroute.Decis
 	return vroute.Decision{Outbound: name, Mark: mark, Must: must}, nil
 }
 
+// the alias leg keeps the bare signature form (stable for known-finding matching), other legs are prefixed
+func legPrefix(lg *leg) string {
+	if lg == legAlias {
+		return ""
+	}
+	return "leg=" + lg.name + " "
+}
+
+func lowered(v *control.VerifRouting) string {
+	var rs []string
+	for _, r := range v.OptRules {
+		rs = append(rs, r.String(false, false, false))
+	}
+	return strings.Join(rs, " ; ")
+}
+
 func (c *checker) violate(sig string, d any) {
 	if c.mism.Add(1) <= maxRecorded {
 		c.r.Violation(sig, d)
 	}
 }
 
-func (c *checker) one(prog *vroute.Program, opts vroute.PacketOpts, trackText bool, sample bool) {
+func (c *checker) one(prog *vroute.Program, lg *leg, opts vroute.PacketOpts, trackText bool, sample bool) {
 	text := prog.ConfigText()
 	if trackText {
 		h := fnv.New64a()
-		h.Write([]byte(text))
+		h.Write([]byte(lg.name + "|" + text))
 		k := h.Sum64()
 		c.mu.Lock()
 		if _, dup := c.textSeen[k]; dup {
@@ -154,12 +263,12 @@ func (c *checker) one(prog *vroute.Program, opts vroute.PacketOpts, trackText bo
 	var ref *vroute.Reference
 	var v *control.VerifRouting
 	var err error
-	if p, msg := vlib.Try(func() { ref, v, err = compile(text) }); p {
-		c.violate("leg=build panic at "+vlib.PanicSite(msg)+" prog="+prog.OneLine(), map[string]any{"config": text, "panic": msg})
+	if p, msg := vlib.Try(func() { ref, v, err = compile(text, lg) }); p {
+		c.violate("leg="+lg.name+" build panic at "+vlib.PanicSite(msg)+" prog="+prog.OneLine(), map[string]any{"config": text, "panic": msg, "leg": lg.name})
 		return
 	}
 	if err != nil {
-		c.violate("leg=build error prog="+prog.OneLine()+" err="+err.Error(), map[string]any{"config": text, "program": prog})
+		c.violate("leg="+lg.name+" build error prog="+prog.OneLine()+" err="+err.Error(), map[string]any{"config": text, "program": prog, "leg": lg.name})
 		return
 	}
 	c.programs.Add(1)
@@ -193,11 +302,11 @@ func (c *checker) one(prog *vroute.Program, opts vroute.PacketOpts, trackText bo
 			if rerr != nil {
 				got = "error: " + rerr.Error()
 			}
-			c.violate(fmt.Sprintf("prog=%s pkt=%s want=%s got=%s", prog.OneLine(), p.Key(), ws, got),
-				caseDetail{Program: prog, Config: text, Packet: toJSON(p), Want: ws, Got: got, HitRule: hit.Rule, MustRulesHit: hit.MustRules})
+			c.violate(fmt.Sprintf("%sprog=%s pkt=%s want=%s got=%s", legPrefix(lg), prog.OneLine(), p.Key(), ws, got),
+				caseDetail{Leg: lg.name, Lowered: lowered(v), Program: prog, Config: text, Packet: toJSON(p), Want: ws, Got: got, HitRule: hit.Rule, MustRulesHit: hit.MustRules})
 		}
 	}
-	if len(prog.Rules) == 1 && len(prog.Rules[0].Conds) == 1 {
+	if lg == legAlias && len(prog.Rules) == 1 && len(prog.Rules[0].Conds) == 1 {
 		// vacuity guard: every function must be seen both holding and not holding as a lone condition
 		cd := prog.Rules[0].Conds[0]
 		k := cd.Func
@@ -223,12 +332,16 @@ func (c *checker) one(prog *vroute.Program, opts vroute.PacketOpts, trackText bo
 	c.mu.Unlock()
 	if sample && len(pkts) > 0 {
 		d, hit := ref.Decide(&pkts[len(pkts)/2])
-		c.r.Sample(map[string]any{"routing": prog.RoutingBody(), "packets": len(pkts), "one_packet": pkts[len(pkts)/2].Key(), "its_decision": d.String(), "by_rule": hit.Rule})
+		c.r.Sample(map[string]any{"leg": lg.name, "routing": prog.RoutingBody(), "packets": len(pkts), "one_packet": pkts[len(pkts)/2].Key(), "its_decision": d.String(), "by_rule": hit.Rule})
 	}
 }
 
-func (c *checker) runSpace(s *vroute.Space, opts vroute.PacketOpts, trackText bool) {
+func (c *checker) runSpace(s *vroute.Space, lg *leg, opts vroute.PacketOpts, trackText bool) {
 	n := s.Len()
+	name := s.Name
+	if lg != legAlias {
+		name += "@" + lg.name
+	}
 	e0, p0 := c.evals.Load(), c.programs.Load()
 	stride := n/3 + 1
 	var done atomic.Int64
@@ -237,26 +350,26 @@ func (c *checker) runSpace(s *vroute.Space, opts vroute.PacketOpts, trackText bo
 			return
 		}
 		if c.r.OverBudget(20*time.Minute, 120*time.Minute) { // runaway guard only (a heavily loaded host), never an oracle
-			c.r.CapHit("internal time budget reached inside space " + s.Name)
+			c.r.CapHit("internal time budget reached inside space " + name)
 			return
 		}
-		c.one(s.At(i), opts, trackText, i%stride == stride/2)
+		c.one(s.At(i), lg, opts, trackText, i%stride == stride/2)
 		if d := done.Add(1); n >= 1000000 && d%int64(n/5) == 0 && d < int64(n) {
-			fmt.Printf("C01: space %-10s %d%% t=%.0fs\n", s.Name, d*100/int64(n), c.r.Elapsed().Seconds())
+			fmt.Printf("C01: space %-14s %d%% t=%.0fs\n", name, d*100/int64(n), c.r.Elapsed().Seconds())
 		}
 	})
-	c.r.Set("space_"+s.Name+"_programs", int(c.programs.Load()-p0))
-	c.r.Set("space_"+s.Name+"_decisions", int(c.evals.Load()-e0))
-	fmt.Printf("C01: space %-10s programs=%d decisions=%d (%s) t=%.0fs\n", s.Name, c.programs.Load()-p0, c.evals.Load()-e0, s.Descr, c.r.Elapsed().Seconds())
+	c.r.Set("space_"+name+"_programs", int(c.programs.Load()-p0))
+	c.r.Set("space_"+name+"_decisions", int(c.evals.Load()-e0))
+	fmt.Printf("C01: space %-14s programs=%d decisions=%d (%s) t=%.0fs\n", name, c.programs.Load()-p0, c.evals.Load()-e0, s.Descr, c.r.Elapsed().Seconds())
 }
 
 // alphabetDistinct verifies at run time that the rule alphabet of a tier-2 space is duplicate-free; programs are
 // mixed-radix sequences over it, hence pairwise distinct (used where hashing every program text would need GBs).
 func alphabetDistinct(r *vlib.Run) {
 	for _, outs := range [][]string{vroute.Tier2Outbounds, vroute.Tier2OutboundsSmall} {
-		s := vroute.Tier2(1, true, outs)
-		per := s.Len() / len(vroute.Rotations)
-		for rot := range vroute.Rotations {
+		s := vroute.Tier2Over(vroute.AllRotations(), 1, true, outs)
+		per := s.Len() / len(vroute.AllRotations())
+		for rot := range vroute.AllRotations() {
 			seen := map[string]bool{}
 			for i := rot * per; i < (rot+1)*per; i++ {
 				t := s.At(i).Rules[0].Text()
@@ -283,7 +396,11 @@ func replay(r *vlib.Run, c *checker) {
 		fmt.Fprintln(os.Stderr, "replay file has no program/packet (build-leg violation?)", err)
 		os.Exit(2)
 	}
-	ref, v, err := compile(f.Detail.Config)
+	lg := legs[f.Detail.Leg]
+	if lg == nil {
+		lg = legAlias
+	}
+	ref, v, err := compile(f.Detail.Config, lg)
 	if err != nil {
 		fmt.Println("REPLAY build error:", err)
 		os.Exit(1)
@@ -295,7 +412,7 @@ func replay(r *vlib.Run, c *checker) {
 	}
 	want, hit := ref.Decide(&p)
 	got, rerr := c.route(v, &p)
-	fmt.Printf("REPLAY routing:\n%spacket: %s\nreference: %s (rule %d)\nimplementation: %s err=%v\n", f.Detail.Program.RoutingBody(), p.Key(), want, hit.Rule, got, rerr)
+	fmt.Printf("REPLAY leg=%s routing:\n%slowered: %s\npacket: %s\nreference: %s (rule %d)\nimplementation: %s err=%v\n", lg.name, f.Detail.Program.RoutingBody(), lowered(v), p.Key(), want, hit.Rule, got, rerr)
 	if rerr != nil || got != want {
 		fmt.Println("VIOLATION property=C01 replay=" + r.ReplayArg)
 		os.Exit(1)
@@ -317,34 +434,58 @@ func main() {
 		fmt.Fprintln(os.Stderr, "C01:", err)
 		os.Exit(2)
 	}
+	repo := os.Getenv("VERIF_REPO")
+	if repo == "" {
+		repo = "/repo"
+	}
+	names, err := wiredChain(repo)
+	if err != nil {
+		fmt.Fprintln(os.Stderr, "C01: cannot read the production optimizer chain:", err)
+		os.Exit(2)
+	}
+	assetDir := os.Getenv("VERIF_WORKDIR")
+	if assetDir == "" {
+		assetDir = os.TempDir()
+	}
+	if legProd, err = prodLeg(names, assetDir); err != nil {
+		fmt.Fprintln(os.Stderr, "C01:", err)
+		os.Exit(2)
+	}
+	prodChainNames = names
+	legs["alias"], legs["prod"] = legAlias, legProd
+	fmt.Printf("C01: production chain read from %s/control/control_plane.go: %s\n", repo, strings.Join(names, " -> "))
 	if r.ReplayArg != "" {
 		replay(r, c)
 	}
-	if pf := os.Getenv("C01_CPUPROFILE"); pf != "" { // development aid: profile tier 1 only
-		f, _ := os.Create(pf)
-		pprof.StartCPUProfile(f)
-		c.runSpace(vroute.Tier1(), vroute.PacketOpts{MappedForms: true}, true)
-		c.runSpace(vroute.Tier2(1, true, vroute.Tier2Outbounds), vroute.PacketOpts{MappedForms: true}, true)
-		pprof.StopCPUProfile()
-		f.Close()
-		os.Exit(0)
-	}
 	alphabetDistinct(r)
 
+	alias, prod := legAlias, legProd
 	full := vroute.PacketOpts{MappedForms: true}
+	compact := vroute.PacketOpts{Compact: true}
+	rots := vroute.AllRotations()
+	nVal := 2
+	if r.Thorough() {
+		nVal = 3
+	}
 	t1 := vroute.Tier1()
-	c.runSpace(t1, full, true)
-	c.runSpace(vroute.Tier2(1, true, vroute.Tier2Outbounds), full, true)
-	rule := "programs: " + t1.Descr + "; tier 2: 4 rotations of three independent atoms, rule = any non-empty conjunction of {A,!A,B,!B,C,!C} (26) x single/multi-valued realisation (per rule) x 5 outbounds (incl. must_rules), all programs of exactly 1 and exactly 2 rules"
+	c.runSpace(t1, alias, full, true)
+	c.runSpace(vroute.Tier2Over(rots, 1, true, vroute.Tier2Outbounds), alias, full, true)
+	// production-chain leg: the same single-rule programs (values and conditions get re-sorted, de-duplicated) and the
+	// tier-3 lists of single-condition rules (neighbours get merged)
+	c.runSpace(vroute.Tier3(2, 3), prod, compact, true)
+	c.runSpace(t1, prod, full, true)
+	c.runSpace(vroute.Tier2Over(rots, 1, true, vroute.Tier2Outbounds), prod, full, true)
+	c.runSpace(vroute.Tier3(3, nVal), prod, compact, true)
+	rule := "leg alias (rules lowered in written order, AliasOptimizer only): " + t1.Descr + fmt.Sprintf("; tier 2: %d rotations of three independent atoms (all ten functions; one rotation is mac x sip x dip), rule = any non-empty conjunction of {A,!A,B,!B,C,!C} (26) x single/multi-valued realisation (per rule) x 5 outbounds (incl. must_rules), all programs of exactly 1 and exactly 2 rules", len(rots))
 	if !r.Thorough() {
-		c.runSpace(vroute.Tier2(2, true, vroute.Tier2Outbounds), vroute.PacketOpts{Compact: true}, true)
+		c.runSpace(vroute.Tier2Over(rots, 2, true, vroute.Tier2Outbounds), alias, compact, true)
 		rule += " (2-rule programs with the compact packet product: one inside + one outside neighbour per constant)"
 	} else {
-		c.runSpace(vroute.Tier2(2, true, vroute.Tier2Outbounds), vroute.PacketOpts{}, true)
-		c.runSpace(vroute.Tier2(3, false, vroute.Tier2OutboundsSmall), vroute.PacketOpts{Compact: true}, false)
-		rule += ", and all programs of exactly 3 rules over 3 outbounds {g1, must_g2, must_rules} with the realisation chosen per program (compact packet product: one inside + one outside neighbour per constant)"
+		c.runSpace(vroute.Tier2Over(rots, 2, true, vroute.Tier2Outbounds), alias, vroute.PacketOpts{}, true)
+		c.runSpace(vroute.Tier2Over(rots, 3, false, vroute.Tier2OutboundsSmall), alias, compact, false)
+		rule += ", and all programs of exactly 3 rules over 3 outbounds {g1, must_g2, must_rules} with the realisation chosen per program (compact packet product)"
 	}
-	rule += ". packets: per program the full product of the boundary values of its own constants (prefix first/last/first-1/last+1 in 128-bit space, both families, IPv4 also in IPv4-mapped form in tier 1; port range ends and ±1; tcp/udp; no/matching/sub-/glued/upper-case+trailing-dot/foreign domain; no/listed(16 bytes)/±1 byte/foreign pname; zero/listed/listed^1/foreign MAC; dscp listed ±1). A case is (program, packet); cases are pairwise distinct by construction (program texts hashed for the 1- and 2-rule spaces: duplicates counted in duplicate_program_texts; rule alphabet checked duplicate-free; packet dimensions de-duplicated); distinct_nontrivial counts the cases whose reference decision is taken by a rule or passes a holding must_rules (i.e. is not the plain fallback)"
+	rule += fmt.Sprintf(". leg prod (the optimizer chain wired in control/control_plane.go of the tree under test: %s): tier 1 and the 1-rule tier-2 programs again, plus tier 3 = all programs of exactly 2 rules (3 values per function) and exactly 3 rules (%d values per function) where a rule is one condition [!]f(v), f in {domain(full:), dip, dport}, x outbounds {g1, g2, direct, must_g1, g1(mark:0x7)} (compact packet product); decisions compared with the reference on the rules as written", strings.Join(prodChainNames, ","), nVal)
 	r.Rule(rule)
 	for _, f := range []string{"domain", "dip", "ip", "sip", "dport", "port", "sport", "l4proto", "ipversion", "mac", "pname", "dscp"} {
 		for _, k := range []string{f, "!" + f} {
@@ -381,7 +522,7 @@ func main() {
 		os.Exit(2)
 	}
 	r.Assume("ControlPlane.Route is driven through a ControlPlane literal holding only the built RoutingMatcher (the fields Route reads); real-mode build of package control (no dae_stub_ebpf encoders)")
-	r.Assume("only routing.AliasOptimizer is applied (required for dip/dport/domain-key aliases); the other optimizers are the subject of C04")
+	r.Assume("leg alias applies only routing.AliasOptimizer (required for dip/dport/domain-key spellings) so that rules are lowered in written order; leg prod applies the chain of control_plane.go in its order (read from the source of the tree under test; NewControlPlane itself is not executed; no geodata values, so DatReaderOptimizer opens no file); the optimizers as such, over geodata and the DNS pipelines, are the subject of C04")
 	r.Assume("a packet without a known domain matches no domain pattern; the generated regexes do not match the empty string")
 	r.Assume("well-formed programs only: port ranges with start<=end, lower-case patterns over the host-name alphabet, groups defined")
 	r.Finish()
